@@ -99,26 +99,32 @@ inductive Index
   | fancy (is : List Int)
   deriving Repr, Inhabited
 
+/-! Python `slice(start, stop, step).indices(n)` (Objects/sliceobject.c) in pieces, so that the index-bound theorem
+(`C06.rows_lt`) can be stated about each -/
+
+def sliceLower (st : Int) : Int := if st < 0 then -1 else 0
+def sliceUpper (N st : Int) : Int := if st < 0 then N - 1 else N
+def sliceClamp (N st v : Int) : Int :=
+  if v < 0 then (if v + N < sliceLower st then sliceLower st else v + N)
+  else (if v > sliceUpper N st then sliceUpper N st else v)
+def sliceStart (N st : Int) : Option Int → Int
+  | none => if st < 0 then sliceUpper N st else sliceLower st
+  | some v => sliceClamp N st v
+def sliceStop (N st : Int) : Option Int → Int
+  | none => if st < 0 then sliceLower st else sliceUpper N st
+  | some v => sliceClamp N st v
+/-- `len(range(s0, s1, st))` -/
+def sliceCount (st s0 s1 : Int) : Nat :=
+  if st > 0 then (if s0 < s1 then ((s1 - s0 - 1) / st + 1).toNat else 0)
+  else (if s1 < s0 then ((s0 - s1 - 1) / (-st) + 1).toNat else 0)
+
 /-- Python `slice(start, stop, step).indices(n)` followed by `range(...)`. -/
 def sliceRows (n : Nat) (start stop step : Option Int) : Res (List Nat) :=
   let st : Int := step.getD 1
   if st == 0 then .error .valueErr else
-  let N : Int := n
-  let lower : Int := if st < 0 then -1 else 0
-  let upper : Int := if st < 0 then N - 1 else N
-  let clampI (v : Int) : Int :=
-    if v < 0 then (if v + N < lower then lower else v + N)
-    else (if v > upper then upper else v)
-  let s0 : Int := match start with
-    | none => if st < 0 then upper else lower
-    | some v => clampI v
-  let s1 : Int := match stop with
-    | none => if st < 0 then lower else upper
-    | some v => clampI v
-  let cnt : Nat :=
-    if st > 0 then (if s0 < s1 then ((s1 - s0 - 1) / st + 1).toNat else 0)
-    else (if s1 < s0 then ((s0 - s1 - 1) / (-st) + 1).toNat else 0)
-  .ok ((List.range cnt).map fun (k : Nat) => (s0 + (k : Int) * st).toNat)
+  let s0 := sliceStart n st start
+  let s1 := sliceStop n st stop
+  .ok ((List.range (sliceCount st s0 s1)).map fun (k : Nat) => (s0 + (k : Int) * st).toNat)
 
 def normIdx (n : Nat) (i : Int) : Res Nat :=
   let N : Int := n
